@@ -38,7 +38,9 @@ type storeHistory struct {
 }
 
 // "A\u200b" (zero-width space), "A " and "B\x01": IDs that differ from a neighbour only in a character that does not show
-var storeIDPool = []string{"A", "B", "a:b", "SFW-MAL-1", "ü/1", "B2", "A\u200b", "A ", "B\x01"}
+var storeIDPool = []string{"A", "B", "a:b", "SFW-MAL-1", "ü/1", "B2", "A\u200b", "A ", "B\x01",
+	// long IDs: 56 characters that are 168 bytes, and 200 plain bytes
+	strings.Repeat("署", 56), strings.Repeat("SFW-LONG-ID-", 16) + "00000001"}
 
 // 3.00001 / 3.00002 / 3.00004: different scores that share the four-decimal bucket of the entropy index key
 var storeEntPool = []float64{0, 1.0 / 64, 0.5, 3, 3 + 1.0/64, 3.03125, 8, 3.00001, 3.00002, 3.00004}
